@@ -118,6 +118,10 @@ def compare(base, atoms, ret, case, inp_ir, out_ir, policy):
     cf = dict(base, **case_facts(case, atoms, ret))
     # summary
     sites.append(site(pin["doc"] == pout["doc"], dict(cf, field="summary"), fail="summary", got=core.short(pout["doc"])))
+    if policy.get("summary_exact"):
+        # code kinds carry the summary verbatim (line breaks and indentation of a multi-line summary included)
+        got = out_ir.get("doc") or ""
+        sites.append(site(got == (inp_ir.get("doc") or ""), dict(cf, field="summary_layout"), fail="summary_layout", got=core.short(repr(got), 90)))
     names_in = [p[0] for p in pin["params"]]
     names_out = [p[0] for p in pout["params"]]
     sites.append(site(names_in == names_out, dict(cf, field="names"), fail="names", got=names_out))
